@@ -196,14 +196,16 @@ constexpr auto complex<T>::operator-=(T const& val) -> complex<T>&
 template <typename T>
 constexpr auto complex<T>::operator*=(T const& val) -> complex<T>&
 {
-    (*this) *= complex<T>{val};
+    _real *= val;
+    _imag *= val;
     return *this;
 }
 
 template <typename T>
 constexpr auto complex<T>::operator/=(T const& val) -> complex<T>&
 {
-    (*this) /= complex<T>{val};
+    _real /= val;
+    _imag /= val;
     return *this;
 }
 
